@@ -48,6 +48,12 @@ func NewWorker(concurrency int) api.WorkTriggerer {
 	return func(ctx context.Context, _ *ui.Output, workers *workers.PoolManager, _ options.RunOptions) {
 		pool := workers.NewContinuousPool(concurrency)
 		pool.Start(ctx)
-		<-workers.WaitForCompletion()
+
+		// stop waiting once triggering ends, so that the run can apply its completion timeout
+		// to the iterations still active
+		select {
+		case <-workers.WaitForCompletion():
+		case <-ctx.Done():
+		}
 	}
 }
